@@ -27,7 +27,15 @@ ByteSpell == { << << "0x010203" >>, "0x010203" >>,
                << << "base32(AEBAG)" >>, "0x010203" >>, << << "b32(AEBAG)" >>, "0x010203" >>,
                << << "base64", "/w==" >>, "0xff" >>, << << "b32(74======)" >>, "0xff" >>,
                << << "\"ab cd\"" >>, "\"ab cd\"" >>, << << "\"a//b\"" >>, "\"a//b\"" >>,
-               << << "\"q\\\"r\"" >>, "\"q\\\"r\"" >> }
+               << << "\"q\\\"r\"" >>, "\"q\\\"r\"" >>,
+               \* backslash runs before a quote: "x\\\"y" (escaped backslash, escaped quote), the same with // and a blank
+               \* inside, and "e\\" (the literal ends with an escaped backslash)
+               << << "\"x\\\\\\\"y\"" >>, "\"x\\\\\\\"y\"" >>,
+               << << "\"a\\\\\\\" // b\"" >>, "\"a\\\\\\\" // b\"" >>,
+               << << "\"e\\\\\"" >>, "\"e\\\\\"" >> }
+(* the literal that ends with an escaped backslash is only written as the LAST token of a line: the reference *)
+(* assembler closes a literal at the first quote not preceded by a backslash, or at the end of the line      *)
+EndEscaped(b) == b[2] = "\"e\\\\\""
 
 TxnFields   == { "Sender", "Fee", "RekeyTo", "TypeEnum", "OnCompletion", "GroupIndex", "FirstValidTime", "LastLog",
                  "CreatedAssetID", "Nonparticipation", "ExtraProgramPages", "NumAssets", "StateProofPK" }
@@ -69,8 +77,9 @@ LineCases ==
            << "AEAQCAIBAEAQCAIBAEAQCAIBAEAQCAIBAEAQCAIBAEAQCAIBAEA5RCDXMI" >>, 0, 0, "") }
   \cup { C("intcblock", << x[1], "1", y[1] >>, << x[2], "1", y[2] >>, 0, 3, "") : x \in IntSpell, y \in { z \in IntSpell : z[3] = 8 \/ z[3] = 31 } }
   \cup { C("pushints", << x[1], "2" >>, << x[2], "2" >>, 0, 2, "") : x \in IntSpell }
-  \cup { C("bytecblock", b[1] \o << "0x00" >>, << b[2], "0x00" >>, 0, 2, "") : b \in ByteSpell }
-  \cup { C("pushbytess", b[1] \o << "0x00" >>, << b[2], "0x00" >>, 0, 2, "") : b \in ByteSpell }
+  \cup { C("bytecblock", b[1] \o << "0x00" >>, << b[2], "0x00" >>, 0, 2, "") : b \in { x \in ByteSpell : ~EndEscaped(x) } }
+  \cup { C("pushbytess", b[1] \o << "0x00" >>, << b[2], "0x00" >>, 0, 2, "") : b \in { x \in ByteSpell : ~EndEscaped(x) } }
+  \cup { C(op, << "0x00" >> \o b[1], << "0x00", b[2] >>, 0, 2, "") : op \in { "bytecblock", "pushbytess" }, b \in ByteSpell }
   \cup { C(op, << f >>, << f >>, 0, 0, f) : op \in { "txn", "gtxns", "itxn", "itxn_field" }, f \in TxnFields }
   \cup { C(op, << f, x[1] >>, << f, x[2] >>, x[3], 0, f) : op \in { "txna", "gtxnsa", "itxna" }, f \in TxnArrays, x \in SmallInt }
   \cup { C(op, << f >>, << f >>, 0, 0, f) : op \in { "txnas", "gtxnsas", "itxnas" }, f \in TxnArrays }
